@@ -16,6 +16,7 @@ import numpy as np
 import felupe as fem
 
 from .. import gen, refmodel, world
+from ..apicall import call as api
 from ..kernel import Discard, InjectedFault, SimWorkerError, Streams, Violation, adigest, close_exact_twin, pick
 from ..sched import SimPool, SimThreads
 
@@ -597,13 +598,28 @@ def run_form(doc, log):
         dd = res.toarray()
         return dd if bil else dd[:, 0]
 
+    # keyword arguments of the weak forms handed over at construction: every weak form carries a
+    # factor alpha / A with the default alpha = 1 - the forms only equal their definition if the
+    # dictionary {"alpha": A} really arrives
+    A_ = 1.0 + 0.25 * (1 + pick(doc["seed"], "form-alpha", 3))
+    form_kwargs = {"alpha": A_}
+
+    def with_alpha(wf):
+        def weakform(*a, alpha=1.0, **kw):
+            return wf(*a, **kw) * (alpha / A_)
+
+        return weakform
+
     def build(c, parallel_basis=False):
         wfs = mk(c)
+        wrapped = [with_alpha(w_) for w_ in wfs]
 
         def weakforms():
-            return wfs
+            return wrapped
 
-        frm = fem.Form(v=field, u=field if bil else None, parallel=parallel_basis)(weakforms)
+        # fem.Form called by keyword or positionally in the documented order (v, u, dx, kwargs, parallel);
+        # the weak forms have defaults for their extra parameters, the values arrive through `kwargs`
+        frm = api("Form", fem.Form, doc["seed"], field, u=field if bil else None, kwargs=dict(form_kwargs), parallel=parallel_basis)(weakforms)
         return frm, wfs
 
     sym_flag = bool(f.get("sym_flag")) and bil
